@@ -4,7 +4,7 @@ import hashlib, json, os, re, shutil, subprocess, time, signal
 
 VERIF = os.path.dirname(os.path.dirname(os.path.abspath(__file__)))
 REPO = os.environ.get("RV_REPO", "/repo")
-KANI_CRATE = os.path.join(VERIF, "kani")
+KANI_CRATE = os.environ.get("RV_KANI_CRATE", os.path.join(VERIF, "kani"))
 SCRATCH = os.environ.get("RV_SCRATCH", "/var/tmp/rvh")
 
 TAG_RE = re.compile(r'^"*((?:C\d\d|WITNESS|REPLAY)\.[A-Za-z0-9_.]+)\[([A-Za-z0-9_]+)\]"*$')
